@@ -46,7 +46,19 @@ fn layers(id: &str) -> (&'static str, Vec<Layer>) {
             Layer { tool: Asan, kind: "hist", extra: &[("hist", "60")], quick: 0, thorough: 32 },
             Layer { tool: Asan, kind: "race", extra: &[("scen", "60")], quick: 0, thorough: 32 },
         ]),
+        // C06 / C07 / C09 / C12: the unsafe code these reach is the `downcast_raw` plumbing of
+        // Layered / Filtered / reload / fmt and tracing-error's WithContext; thorough only
+        "C06" => ("c06", vec![
+            Layer { tool: Miri, kind: "hist", extra: &[("hist", "3")], quick: 0, thorough: 48 },
+        ]),
+        "C07" => ("c07", vec![
+            Layer { tool: Miri, kind: "hist", extra: &[("hist", "1")], quick: 0, thorough: 32 },
+        ]),
+        "C09" => ("c09", vec![
+            Layer { tool: Miri, kind: "mix", extra: &[("limit", "1")], quick: 0, thorough: 32 },
+        ]),
         "C12" => ("c12", vec![
+            Layer { tool: Miri, kind: "hist", extra: &[("hist", "1")], quick: 0, thorough: 32 },
             Layer { tool: Tsan, kind: "conc", extra: &[("runs", "3")], quick: 0, thorough: 100 },
         ]),
         "C15" => ("c15", vec![
